@@ -588,6 +588,7 @@ pub enum IterV {
     FlatMap { inner: Box<IterV>, f: Val, fty: usize, cur: Option<Box<IterV>> },
     Enumerate { inner: Box<IterV>, count: u64 },
     Take { inner: Box<IterV>, n: u64 },
+    Zip { a: Box<IterV>, b: Box<IterV> },
 }
 
 #[derive(Clone, Debug, PartialEq)]
